@@ -169,4 +169,4 @@ def parts(tier):
     Q.set_open({f["key"] for f in load_findings("C04") + load_findings(ID) if f.get("status") == "known"})
     quick = tier == "quick"
     return [HypPart(name="where", check=check, strategy=_case,
-                    examples=30 if quick else 800, seconds=55 if quick else 800)]
+                    examples=30 if quick else 800, seconds=55 if quick else 600)]
